@@ -139,10 +139,12 @@ def run(ctx, progs):
     ctx.rule("O1", "closure of each O(1) entry: no loop/recursion, no bulk move, no unclassified storage-mutating callee")
     ctx.rule("O2", "functions with a bulk-move site == reviewed table; make_contiguous rotates only conditionally")
     ctx.assumptions.append("F6 (make_contiguous rotates contiguous contents that end at the array end) is a known, documented defect outside this check's reach")
+    ctx.rule("HEADMOVE1", "remove / Drain::drop write `start` (relocating every element in front of the gap) only where the guard facts entail front count <= documented bound")
     ctx.rule("KIND1", "index-kind inference: physical positions and logical indices/lengths are never compared, and never stand in for each other")
     for cfg, prog in progs.items():
         o1(ctx, prog, cfg)
         o2(ctx, prog, cfg)
+        headmove1(ctx, prog, cfg)
         from .. import kinds
 
         kinds.run(ctx, prog, cfg, only=lambda s: s in ("CircularBuffer::remove", "<Drain<N, T> as Drop>::drop", "CircularBuffer::make_contiguous", "CircularBuffer::swap", "CircularBuffer::swap_remove_back", "CircularBuffer::swap_remove_front"))
@@ -232,3 +234,124 @@ def o2(ctx, prog, cfg):
         ctx.check(ok, "O2", f.short, "rotate only on one branch", f.loc,
                   "make_contiguous rotates the storage on every path that has elements: it relocates elements even when the "
                   "contents are already contiguous", why, cfg)
+
+
+# ---------------------------------------------------------------------------------------------------------------
+# HEADMOVE1 — a necessary condition of the linear bounds of remove(i) and drain(i..j)
+#
+# Closing a gap by moving the elements *behind* it leaves `start` where it was; closing it by moving the elements *in
+# front of* it changes `start`, and then every one of the i (resp. range.start) front elements changes address. The
+# documented bounds are len - i resp. len - j. So wherever remove / Drain::drop write `start`, the facts holding at the
+# write must entail i <= len - i (resp. range.start <= buf_size - range.end). Accepted justifications (all decided on the
+# guard facts of the site, as linear forms): a dominating comparison A <= B + w whose difference B - A is, up to a
+# non-negative constant, the required slack (halving, doubling and shifts by one are linearised), or a bound
+# i <= 1 (resp. range.start == 0: nothing in front of the hole). On the pinned tree neither function writes `start`.
+def _hlin(f, e, syms, sign=1, acc=None, scale=1):
+    if acc is None:
+        acc = {}
+    e = mir.strip_casts(f.deep_simplify(e))
+    if isinstance(e, tuple) and e:
+        if e[0] == "int":
+            acc[1] = acc.get(1, 0) + sign * scale * e[1]
+            return acc
+        if e[0] == "binop" and e[1] in ("Add", "Sub", "AddUnchecked", "SubUnchecked"):
+            _hlin(f, e[2], syms, sign, acc, scale)
+            _hlin(f, e[3], syms, sign if e[1].startswith("Add") else -sign, acc, scale)
+            return acc
+        if e[0] == "binop" and e[1] in ("Mul", "MulUnchecked"):
+            a, b = mir.strip_casts(e[2]), mir.strip_casts(e[3])
+            for x, y in ((a, b), (b, a)):
+                if isinstance(x, tuple) and x and x[0] == "int":
+                    return _hlin(f, y, syms, sign, acc, scale * x[1])
+        if e[0] == "binop" and e[1] in ("Shl", "ShlUnchecked") and mir.strip_casts(e[3]) == ("int", 1):
+            return _hlin(f, e[2], syms, sign, acc, scale * 2)
+        for name, pred in syms.items():
+            if pred(e):
+                acc[name] = acc.get(name, 0) + sign * scale
+                return acc
+        if e[0] in ("call", "pcall") and str(e[1]).endswith("ExactSizeIterator::len") and len(e[2]) == 1:
+            a = e[2][0]
+            if isinstance(a, tuple) and a[0] == "ref" and isinstance(a[1], tuple) and a[1][0] == "place" and a[1][1] == ("param", 1) and tuple(a[1][2]) == ("range",):
+                acc["range.end"] = acc.get("range.end", 0) + sign * scale
+                acc["range.start"] = acc.get("range.start", 0) - sign * scale
+                return acc
+    acc[repr(e)] = acc.get(repr(e), 0) + sign * scale
+    return acc
+
+
+def _halved(e):
+    """X if e is X / 2 or X >> 1"""
+    e = mir.strip_casts(e)
+    if isinstance(e, tuple) and e and e[0] == "binop" and ((e[1] == "Div" and mir.strip_casts(e[3]) == ("int", 2)) or (e[1] in ("Shr", "ShrUnchecked") and mir.strip_casts(e[3]) == ("int", 1))):
+        return e[2]
+    return None
+
+
+def _entry_load(path):
+    return lambda e: e[0] == "load" and tuple(e[2]) == path and e[3][0] == "entry"
+
+
+HEADMOVE = {
+    # function: (symbols, required slack t >= 0 as a linear form, the quantity that may instead be bounded by a constant, that constant, text)
+    "CircularBuffer::remove": ({"index": lambda e: e == ("param", 2), "size": _entry_load(("size",))},
+                               {"size": 1, "index": -2}, "index", 1, "index <= len - index"),
+    "<Drain<N, T> as Drop>::drop": ({"range.start": _entry_load(("range", "start")), "range.end": _entry_load(("range", "end")), "buf_size": _entry_load(("buf_size",))},
+                                    {"buf_size": 1, "range.end": -1, "range.start": -1}, "range.start", 0, "range.start <= buf_size - range.end"),
+}
+
+
+def headmove1(ctx, prog, cfg):
+    eff = effects.get(prog)
+    from .. import common
+
+    for short, (syms, need, small, small_k, text) in HEADMOVE.items():
+        f = ctx.need_fn(prog, short, "HEADMOVE1")
+        if f is None:
+            continue
+        sites = []
+        for (b, i, e) in common.field_stores(f, "start"):
+            if mir.is_load_of(mir.strip_casts(f.deep_simplify(e)), "start"):
+                continue  # stores the value it already has
+            sites.append((b, "store to start"))
+        for b, t in f.calls(False):
+            if mir.is_local_callee(t):
+                cs = mir.callee_short(t)
+                if cs in prog.fns and "start" in {w for w in eff.writes(cs) if isinstance(w, str)}:
+                    sites.append((b, "call of `%s`, which writes start" % cs))
+        if not sites:
+            ctx.ok("HEADMOVE1", short, "never writes start", "no store to `start`, no callee that writes it: only elements behind the gap can be relocated", cfg)
+            continue
+        G = guards.Guards(f)
+        for b, what in sites:
+            ok, by = False, ""
+            for at in G.facts_at(b):
+                if at[0] != "le":
+                    continue
+                _, a, c, w = at
+                h = _halved(c)
+                if h is not None:   # a <= X/2 + w  =>  2a <= X + 2w
+                    la, lc, w = _hlin(f, a, syms, scale=2), _hlin(f, h, syms), 2 * w
+                else:
+                    la, lc = _hlin(f, a, syms), _hlin(f, c, syms)
+                d = dict(lc)
+                for k, v in la.items():
+                    d[k] = d.get(k, 0) - v
+                # fact: d >= -w ; wanted: t = need >= 0 ; t - d must be a constant k with k - w >= 0
+                r = dict(need)
+                for k, v in d.items():
+                    r[k] = r.get(k, 0) - v
+                if all(v == 0 for k, v in r.items() if k != 1) and r.get(1, 0) - w >= 0:
+                    ok, by = True, "guard fact `%s <= %s%+d` entails %s" % (mir.fmt(a, f)[:40], mir.fmt(c, f)[:40], at[3], text)
+                    break
+            if not ok:
+                Z = G.closure(b)
+                # the front part has at most `small_k` elements on this path
+                cand = [s for at in G.facts_at(b) if at[0] == "le" for s in (mir.strip_casts(at[1]), mir.strip_casts(at[2])) if isinstance(s, tuple) and s and syms[small](s)]
+                for s in cand:
+                    if Z.le(s, guards.ZERO, small_k):
+                        ok, by = True, "guard facts entail %s <= %d" % (small, small_k)
+                        break
+            ctx.check(ok, "HEADMOVE1", short, "head move justified: " + what, short_loc(f, b),
+                      "`%s` moves the elements in front of the gap (%s) on a path whose guard facts do not entail `%s`: every "
+                      "front element changes address there, which exceeds the documented bound for a gap near the back" % (short, what, text),
+                      by, cfg)
